@@ -125,7 +125,18 @@ def run_module(modname, only=None, canaries=True):
         c["seconds"] = round(c["seconds"], 3)
         c["verdict"] = "refuted" if c["refuted"] else ("refuted-finite" if c["refuted_finite"] else ("undecided" if c["undecided"] else "discharged"))
     can = run_canaries(reg, src) if canaries else []
-    return dict(module=modname, file=reg.file, source_sha=src.sha, functions=info, problems=problems,
+    xc = []
+    if canaries and hasattr(mod, "CROSSCHECK"):
+        # CPython cross-check of the encoder on this module's functions (concrete runs of the same engine vs the real functions)
+        try:
+            from . import crosscheck
+            cases = mod.CROSSCHECK()
+            if only:
+                cases = [c for c in cases if c.qualname in only]
+            xc = crosscheck.run_module(reg, cases)
+        except Exception:
+            xc = [dict(function=modname, runs=0, skipped=0, mismatches=[dict(error=traceback.format_exc()[-600:])])]
+    return dict(module=modname, file=reg.file, source_sha=src.sha, functions=info, problems=problems, crosscheck=xc,
                 clauses=sorted(clauses.values(), key=lambda c: c["name"]), canaries=can,
                 n_obligations=len(obligations), wall_s=round(time.time() - t0, 2))
 
@@ -141,5 +152,6 @@ if __name__ == "__main__":
             for m in c["models"][:1]:
                 print("     ", m["path"], m["log"], m["model"][:1500].replace("\n", " "))
     print("CANARIES", r["canaries"])
+    print("CROSSCHECK", [(x["function"], x["runs"], x["skipped"], len(x["mismatches"])) for x in r.get("crosscheck", [])])
     print("PROBLEMS", r["problems"])
     print("obligations", r["n_obligations"], "wall", r["wall_s"])
